@@ -138,7 +138,7 @@ def run(ctx):
     ctx.assumptions += ['float rounding inside np.dot / np.mean is not modelled: decisions are compared, near ties excused; '
                         'correlation values compared within 1e-9',
                         'bootstrap factors are dyadic so that factor*n is exact in binary64',
-                        'marker tables whose non-empty lists lack any query gene are not generated here (C08, finding F7)']
+                        'a parent with >= 2 children always lists at least one query gene (an entry without any is the rejection studied by C08); single-child parents may list reference genes that the query lacks']
     choose_node_part(ctx)
     raw_profile_part(ctx)
     mapcheck.run_batch(ctx, ctx.n(25, 400), ('c02-', 'c08-reported', 'corr:Vote', 'corr:trace'), 'map')
